@@ -321,7 +321,8 @@ def check_one(site, mode, t1, t2, X1, X2, p, dim, case, ctx, tie, keep=None, pco
                       {"score": score, "coupling_cost": real, "optimum": best, "links_i2_j1": [list(l) for l in path]})
         return score
     # the 'diff' feature of the matching, where it can be read as a number: the distance (in the requested dimension) from the
-    # fix to ONE of the fixes it is linked with - which one is the implementation's choice
+    # fix to ONE of the fixes it is linked with - which one is the implementation's choice (so is a summary of them: anything
+    # between the smallest and the largest of those distances is accepted)
     try:
         diffs = [float(m.getObsAnalyticalFeature("diff", j)) for j in range(n1)]
     except Exception:
@@ -330,7 +331,7 @@ def check_one(site, mode, t1, t2, X1, X2, p, dim, case, ctx, tie, keep=None, pco
         ctx.count("diff_feature_compared")
         for j in range(n1):
             mine = [dist(X1[j], X2[i], dim) for (i, jj) in path if jj == j]
-            if mine and not any(close(diffs[j], d) for d in mine):
+            if mine and not any(close(diffs[j], d) for d in mine) and not (min(mine) <= diffs[j] <= max(mine)):
                 ctx.violation("%s/diff-feature-is-not-the-distance-to-a-linked-fix" % site, case,
                               {"fix": j, "diff": diffs[j], "distances_to_its_linked_fixes": mine})
                 return score
